@@ -10,3 +10,4 @@ import PC.Props.C09
 import PC.Props.C10
 import PC.Props.C12
 import PC.Props.C18
+import PC.Props.C11
